@@ -74,3 +74,27 @@ def scramble(o, depth=0, _seen=None):
                 scramble(v, depth + 1, _seen)
         except Exception:  # noqa: BLE001
             pass
+
+
+def scramble_shallow(o, depth=0):
+    """in-place writes into the buffers and lists a returned object owns (not into dicts / nested definition tables, which may
+    be shared class-level data by design): bitarray / bytearray attributes, list attributes and the same one level down"""
+    if depth > 2 or o is None or isinstance(o, (enum.Enum, type, int, float, str, bytes, frozenset)):
+        return
+    if isinstance(o, (bitarray, bytearray)) or type(o).__module__ == "numpy":
+        scribble(o)
+        return
+    if isinstance(o, (list, tuple)):
+        for x in list(o):
+            scramble_shallow(x, depth + 1)
+        if isinstance(o, list):
+            o.append("scribble")
+        return
+    d = getattr(o, "__dict__", None)
+    if not isinstance(d, dict):
+        return
+    for k, v in list(d.items()):
+        if isinstance(v, (bitarray, bytearray, list, tuple)) or type(v).__module__ == "numpy":
+            scramble_shallow(v, depth + 1)
+        elif hasattr(v, "__dict__") and not isinstance(v, (enum.Enum, type)) and not callable(v):
+            scramble_shallow(v, depth + 1)
